@@ -413,17 +413,8 @@ def model_scan_value(f, v):
 
 
 def known_lexical_slice(f, s):
-    """Narrow class of a latent function-level panic (not reachable through the parser, which validates escapes
-    first): utils.rs unescape_sparql_iri / literal_lexical_value take `&hexadecimal[..digits]` after `\\u` / `\\U`
-    although the next `digits` bytes are not known to be ASCII (the slice end falls inside a multi-byte character)."""
-    if f not in ("unescape_iri", "literal_value"):
-        return False
-    bs = s.encode("utf-8")
-    for m in re.finditer(rb"\\([uU])", bs):
-        d = 4 if m.group(1) == b"u" else 8
-        h = bs[m.end():]
-        if len(h) >= d and not is_boundary(h, d):
-            return True
+    """(C16-lexical-helper-slice, repaired by 484100d: no longer a known class; a panic of unescape_sparql_iri /
+    literal_lexical_value is a VIOLATION.)"""
     return False
 
 
@@ -1347,44 +1338,10 @@ def kf_error_offset(s, res):
     return off >= 0 and off + ln != len(bs) and not is_boundary(bs, len(bs) - ln)
 
 
-def kf_mlpredict(s):
-    """C16-mlpredict-slice: parse_ml_predict slices `input_query[select_idx + 6..where_idx]` with the first `WHERE`
-    before the end of the first `SELECT` inside the INPUT { ... } block (begin > end)."""
-    for m in re.finditer(r"ML\.PREDICT", s):
-        k = s.find("INPUT", m.end())
-        if k < 0:
-            continue
-        b = s.find("{", k)
-        if b < 0:
-            continue
-        depth, j = 1, b + 1
-        while j < len(s) and depth:
-            depth += {"{": 1, "}": -1}.get(s[j], 0)
-            j += 1
-        if depth:
-            continue
-        block = s[b + 1:j - 1].encode("utf-8")
-        si, wi = block.find(b"SELECT"), block.find(b"WHERE")
-        if si >= 0 and wi >= 0 and wi < si + 6:
-            return True
-    return False
-
-
-def kf_duration(s):
-    """C16-duration-overflow: parse_duration_to_seconds multiplies the minutes / hours of a window width or step
-    (`PT<n>M`, `PT<n>H`) by 60 / 3600 in usize without a check (panics when overflow checks are on, wraps otherwise)."""
-    for m in re.finditer(r"PT(\d+)([MH])", s):
-        n = int(m.group(1))
-        if n < 2 ** 64 and n * (60 if m.group(2) == "M" else 3600) >= 2 ** 64:
-            return True
-    return False
-
-
 def classify_panic(s, entry, msg, res):
-    if ("begin <= end" in msg or "slice index starts at" in msg or "begin > end" in msg) and kf_mlpredict(s):
-        return "C16-mlpredict-slice"
-    if "multiply with overflow" in msg and kf_duration(s):
-        return "C16-duration-overflow"
+    """No panic of a string entry point is a known class any more: C16-error-offset (b4ac3b3), C16-mlpredict-slice
+    (53d86cc) and C16-duration-overflow (583d310) are repaired; their witnesses are replayed from
+    corpus/C16/cases.json and any panic is a VIOLATION."""
     return None
 
 
@@ -1560,8 +1517,6 @@ def compare_entries(ctx, binpath, cases, stream):
         kinds[iv[0]] = kinds.get(iv[0], 0) + 1
         if mv == ("Ok", ("Extension",)) or (iv[0] == "Ok" and iv[1] == ("Extension",)):
             next_ += 1          # extension grammar: not modelled
-            continue
-        if iv[0] == "Panic" and kf_mlpredict(s):
             continue
         if iv != mv:
             nmis += 1
